@@ -440,6 +440,12 @@ pub(crate) fn round(val: f64, kwargs: Kwargs, _: &State) -> TeraResult<Value> {
     } else {
         10.0_f64.powi(precision)
     };
+    // 10^precision (or the scaled value) leaving the f64 range would turn the result into NaN/inf
+    if val.is_finite() && (multiplier == 0.0 || !(multiplier * val).is_finite()) {
+        return Err(Error::message(format!(
+            "Cannot round {val} with a precision of {precision}: out of range"
+        )));
+    }
 
     match method {
         Some("ceil") => Ok(((multiplier * val).ceil() / multiplier).into()),
